@@ -591,6 +591,10 @@ def run_native_replay(build, ob, vals, ):
 # Layer V
 # ------------------------------------------------------------------------------------------------
 
+VERUS_SEMANTIC = re.compile(r"postcondition not satisfied|precondition not satisfied|assertion failed|invariant not satisfied"
+                            r"|arithmetic (under|over)flow|decreases not satisfied|division by zero|recommendation not met|unreachable", re.I)
+
+
 def run_verus_ob(build, ob):
     import extract
     t0 = time.time()
@@ -653,8 +657,15 @@ def run_verus_ob(build, ob):
             if any("rlimit" in k or "timed out" in k or "resource limit" in k.lower() for k in kinds):
                 res["status"], res["reason"] = "undecided", "rlimit: " + "; ".join(kinds[:3])
             else:
-                res["status"] = "failed"
-                res["failed"] = [{"check": k, "location": "line %s of extracted text" % ln} for k, ln in errs[:10]]
+                # only verification conditions that Verus could not establish count as failed; a
+                # rejection of the extracted text itself (type error, unsupported construct, a loop
+                # left without invariant / decreases) is a tool limit: undecided
+                sem = [(k, ln) for k, ln in errs if VERUS_SEMANTIC.search(k)]
+                if sem:
+                    res["status"] = "failed"
+                    res["failed"] = [{"check": k, "location": "line %s of extracted text" % ln} for k, ln in sem[:10]]
+                else:
+                    res["status"], res["reason"] = "undecided", "verus rejected the extracted text: " + "; ".join(kinds[:3])
             res["output_tail"] = out[-6000:]
         else:
             res["status"], res["reason"] = "undecided", "vacuous: nothing verified"
